@@ -1,6 +1,6 @@
 (* C15 — A revision history with a cycle is always rejected, an acyclic one never.
    Statement-only file: every theorem is closed by `exact` of a lemma in Proofs/CycleProof.v. *)
-From AV Require Import Spec.C15 Proofs.CycleProof.
+From AV Require Import Spec.C15 Proofs.CycleProof Model.Plan Spec.C01 Spec.C02 Proofs.PlanProof Proofs.C01Proof Proofs.C02Proof.
 
 (* the model of RevisionMap._revision_map reports a cycle error exactly when the
    down_revision + depends_on links contain a directed cycle — for every graph, any size *)
@@ -24,12 +24,12 @@ Print Assumptions C15_heads_bases.
 
 (* the full property for the model *)
 Theorem C15_model_holds : forall G, wf_refs G -> C15_holds G (load G).
-Proof. exact model_holds. Qed.
+Proof. exact CycleProof.model_holds. Qed.
 Print Assumptions C15_model_holds.
 
 (* the boolean decider applied to the implementation's output implies the Prop-level property *)
 Theorem C15_decider_sound : forall G out, wf_refs G -> check_C15 G out = true -> C15_holds G out.
-Proof. exact decider_sound. Qed.
+Proof. exact CycleProof.decider_sound. Qed.
 Print Assumptions C15_decider_sound.
 
 (* the elimination loop alone decides acyclicity of any parent function closed in the graph *)
@@ -43,6 +43,21 @@ Theorem C15_traversal_total : forall G f targets, wf_refs G -> (f = r_down \/ f 
   reach_set (of_rev f G) G targets <> None /\ reach_set (children_by f G) G targets <> None.
 Proof. exact traversal_total. Qed.
 Print Assumptions C15_traversal_total.
+
+(* on every ACCEPTED history the upgrade and downgrade planners terminate: they never run out of fuel
+   (the topological sort always ends) and never trip `assert not todo` *)
+Theorem C15_accepted_commands_terminate : forall G l, wf_refs G -> ndeps_ok G -> load G = Loaded l ->
+  (forall T Cur, upgrade_plan G T Cur <> PErr PEFuel /\ upgrade_plan G T Cur <> PErr PEAssert) /\
+  (forall t b Cur, downgrade_plan G t b Cur <> PErr PEFuel /\ downgrade_plan G t b Cur <> PErr PEAssert).
+Proof. intros G l WF NOK E.
+  assert (~ cyclic (all_down G)) as AC. { intros C. apply (load_iff G WF) in C. rewrite E in C. discriminate. }
+  split.
+  - intros T Cur. pose proof (upgrade_plan_result G WF AC NOK T Cur) as H.
+    destruct (upgrade_plan G T Cur) as [p|e]; [split; discriminate|]. destruct e; try contradiction; split; discriminate.
+  - intros t b Cur. pose proof (downgrade_plan_result G WF AC NOK t b Cur) as H.
+    destruct (downgrade_plan G t b Cur) as [p|e]; [split; discriminate|]. destruct e; cbn [C02_holds] in H; try contradiction; split; discriminate.
+Qed.
+Print Assumptions C15_accepted_commands_terminate.
 
 (* non-vacuity: a concrete cyclic history that the reachability checks alone accept
    (a:None, b:c, c:d, d:(a,c) — the design-time witness), and a concrete acyclic one *)
